@@ -228,3 +228,7 @@ func (e *FmtError) Unwrap() error { return e.Wrapped }
 // ClockStrict: under the engine successive time.Now() values are strictly increasing
 // (as a nanosecond clock practically is) instead of merely non-decreasing.
 func ClockStrict() {}
+
+// ClockConcrete: under the engine time.Now() returns fixed concrete instants 1 ms apart
+// (for code whose results do not depend on the clock; durations only feed statistics).
+func ClockConcrete() {}
